@@ -25,3 +25,11 @@ Example c16_example :
   spec_calls [0; 1; 0;  0; 12;  64; 1; 1; 0;  64; 1; 1; 2;  80; 2; 0; 0;  8; 10]
   = [CWr [0]; CPa 1 64 [0]; CPa 2 80 []; CNl [8; 10]].
 Proof. vm_compute. reflexivity. Qed.
+
+(* for every callback behaviour the calls are the specification's, cut at the first callback error
+   that contains a Notification (wire order, exact type/flags/value; nothing after the stop) *)
+From Verif Require Import UpdateErrProofs.
+Theorem c16_calls_any_callbacks : forall sc b,
+  wf_bytes b = true -> exists e, update_decode sc b = Ok (spec_calls_script sc b, e).
+Proof. exact decode_calls_any. Qed.
+Print Assumptions c16_calls_any_callbacks.
